@@ -1,6 +1,16 @@
 use std::fs;
 use std::path::Path;
 
+/// Write a generated file. An existing entry of that name is replaced, not written into: if it is
+/// a symbolic or hard link (a checkout that links generated names elsewhere), the file it leads to
+/// stays as it is.
+pub fn write_generated_file(path: &Path, content: &str) -> std::io::Result<()> {
+    if fs::symlink_metadata(path).is_ok_and(|entry| !entry.is_dir()) {
+        fs::remove_file(path)?;
+    }
+    fs::write(path, content)
+}
+
 /// Utility for writing generated TypeScript files with consistent patterns
 pub struct FileWriter {
     output_path: String,
@@ -24,7 +34,7 @@ impl FileWriter {
     ) -> Result<(), Box<dyn std::error::Error>> {
         // joined as a path: an empty output path is the current directory, not the root
         let file_path = Path::new(&self.output_path).join(filename);
-        fs::write(&file_path, content)?;
+        write_generated_file(&file_path, content)?;
         self.generated_files.push(filename.to_string());
         Ok(())
     }
